@@ -4,6 +4,7 @@
     quantified). *)
 From InvokeVerif Require Import Model.RunnerSM Spec.C08Spec Spec.C14Spec Corr.RunnerCorr Corr.C14Corr.
 From InvokeVerif Require Import Proofs.RunnerSM_facts Proofs.C08_sm Proofs.C14_sm Proofs.RunnerSM_sweep Proofs.C14_flagship.
+From InvokeVerif Require Import Proofs.C14_pending.
 
 (** A timeout is in effect and expires while the command is still running (no
     worker is made to fail, no interrupt, readers get EOF): it is killed and
@@ -157,7 +158,40 @@ Theorem C14_run_meets_spec_bounded_4 :
   sweep ok14 (configs true) (scripts_upto alphabet14 4) = true.
 Proof. exact sweep14_4. Qed.
 
+(** Input still queued for the command (reads of the stdin worker, [is_input]) never
+    changes what run() does: erasing every input event from ANY script, under ANY
+    configuration, leaves every observable as it is.  ([kill] signals the process and
+    nothing else; the stdin worker goes on forwarding and ends by itself once the wait
+    loop has been left.) *)
+Theorem C14_pending_input_irrelevant :
+  forall c script, observe (run_sm c script) = observe (run_sm c (strip_input script)).
+Proof. exact pending_input_irrelevant. Qed.
+
+(** In particular for a timeout that expires while the command is running and any
+    amount of input [ins] is pending at that moment: killed, CommandTimedOut, and the
+    reads captured, joins, stop and timer state are those of the run without that input. *)
+Theorem C14_timeout_with_pending_input :
+  forall c pre ins post,
+    start_raises c = false -> c_timeout c = true -> fair c = true ->
+    has_exc (pre ++ post) = false -> has_kbd (pre ++ post) = false ->
+    first_of (pre ++ ETimer :: post) = ExpiredWhileRunning ->
+    forallb is_input ins = true ->
+    o_outcome (observe (run_sm c (pre ++ ETimer :: ins ++ post))) = Some OTimedOut /\
+    1 <= o_kills (observe (run_sm c (pre ++ ETimer :: ins ++ post))) /\
+    observe (run_sm c (pre ++ ETimer :: ins ++ post)) = observe (run_sm c (pre ++ ETimer :: post)).
+Proof. exact timeout_with_pending_input. Qed.
+
 (** Non-vacuity *)
+Example C14_ex_pending_input :
+  let c := mkCfg false true true false false false false false in
+  let script := [EChunk WOut; ETimer; EChunk WIn; EChunk WIn; EChunk WOut; EEof WOut; EEof WErr] in
+  forallb is_input [EChunk WIn; EChunk WIn] = true /\
+  strip_input script = [EChunk WOut; ETimer; EChunk WOut; EEof WOut; EEof WErr] /\
+  first_of script = ExpiredWhileRunning /\
+  observe (run_sm c script) = mkSmObs (Some OTimedOut) 1 0 0 1 true [] false true true 2 0
+                                       [(WOut, false); (WIn, false); (WErr, false)].
+Proof. vm_compute. auto. Qed.
+
 Example C14_ex_expired :
   let c := mkCfg false false true true false false false false in
   let script := [EChunk WOut; ETimer; EChunk WOut; EEof WOut; EEof WErr] in
